@@ -8,6 +8,7 @@ Output files are judged by the same independent reader and oracles as the
 `recorder` stream (warc_common.oracle_c05 / oracle_c07)."""
 import asyncio
 import io
+import re
 import os
 import shutil
 import tempfile
@@ -196,3 +197,296 @@ def stream_client(ctx, n, pid):
         check_exchange(ctx, ex, pid)
     if exs:
         ctx.sample({'stream': 'client', 'url': exs[0]['url'], 'header': exs[0]['header'], 'framing': exs[0]['framing']})
+
+
+# ======================================================================================================
+# stream `mixed`: ONE recorder listening to the REAL FTP client and the REAL HTTP client; a sequence of
+# fetches, some of which fail at a chosen stage (so that BaseSession.__exit__ runs abort() + recycle()).
+# ======================================================================================================
+FTP_STAGES = ['ok', 'ok', 'ok', 'welcome-421', 'login-530', 'retr-550', 'pasv-500', 'data-refused', 'closing-426',
+              'closing-garbage', 'control-reset', 'hangup-before-welcome']
+HTTP_STAGES = ['ok', 'ok', 'reset-in-header', 'reset-in-body', 'bad-status-line', 'refused']
+
+
+def gen_mixed(rng):
+    fetches = []
+    for i in range(rng.choice([2, 3, 4, 6])):
+        if rng.random() < 0.65:
+            data = bytes(rng.randrange(256) for _ in range(rng.choice([0, 1, 40, 5000])))
+            fetches.append({'kind': 'ftp', 'stage': rng.choice(FTP_STAGES), 'listing': rng.random() < 0.25, 'data': data,
+                            'port': 2100 + i, 'dport': 20000 + i,
+                            'cuts': fakenet.random_cuts(rng, len(data), rng.choice(['none', 'few']))})
+        else:
+            ex = gen_exchange(rng)
+            ex['kind'] = 'http'
+            ex['stage'] = rng.choice(HTTP_STAGES)
+            ex['port'] = 8000 + i
+            ex['url'] = 'http://h:%d/p%d' % (8000 + i, i)
+            fetches.append(ex)
+    return {'compress': rng.random() < 0.5, 'digests': rng.random() < 0.8, 'cdx': rng.random() < 0.7, 'fetches': fetches}
+
+
+LISTING = b'-rw-r--r-- 1 u g 3 Jan 01 2020 a.txt\r\n'
+
+
+class MixedFtp:
+    """A scripted FTP server for one fetch; `stage` says where it goes wrong."""
+
+    def __init__(self, f, feeders):
+        self.f = f
+        self.buf = b''
+        self.feeders = feeders
+
+    async def serve(self, conn):
+        st = self.f['stage']
+        if st == 'hangup-before-welcome':
+            conn.close()
+        elif st == 'welcome-421':
+            conn.send(b'421 too many users\r\n')
+            conn.close()
+        else:
+            conn.send(b'220-hello\r\n220 ready\r\n')
+
+    def on_write(self, conn, data):
+        self.buf += data
+        while b'\n' in self.buf:
+            line, _, self.buf = self.buf.partition(b'\n')
+            self.handle(conn, line.rstrip(b'\r'))
+
+    def handle(self, conn, line):
+        st = self.f['stage']
+        verb = line.split(b' ', 1)[0].upper()
+        if verb == b'USER':
+            conn.send(b'331 pw\r\n')
+        elif verb == b'PASS':
+            conn.send(b'530 no\r\n' if st == 'login-530' else b'230 ok\r\n')
+        elif verb == b'TYPE':
+            conn.send(b'200 ok\r\n')
+        elif verb == b'SIZE':
+            conn.send(b'213 %d\r\n' % len(self.f['data']))
+        elif verb == b'PASV':
+            if st == 'pasv-500':
+                conn.send(b'500 no passive\r\n')
+            else:
+                p = self.f['dport']
+                conn.send(b'227 Entering Passive Mode (10,0,0,1,%d,%d)\r\n' % (p // 256, p % 256))
+        elif verb in (b'RETR', b'LIST', b'MLSD'):
+            if verb == b'MLSD':
+                conn.send(b'500 what\r\n')
+                return
+            if st == 'retr-550':
+                conn.send(b'550 no such file\r\n')
+                return
+            conn.send(b'150 here it comes\r\n')
+            if st == 'control-reset':
+                conn.close()
+            elif st == 'closing-426':
+                conn.send(b'426 aborted\r\n')
+            elif st == 'closing-garbage':
+                conn.send(b'garbage without code\r\n')
+                conn.close()
+            else:
+                conn.send(b'226 done\r\n')
+        else:
+            conn.send(b'500 unknown\r\n')
+
+
+class MixedData:
+    def __init__(self, f, feeders):
+        self.f = f
+        self.feeders = feeders
+
+    async def serve(self, conn):
+        body = LISTING if self.f['listing'] else self.f['data']
+        fut = asyncio.ensure_future(conn.send_segments(fakenet.segment(body, self.f['cuts']), eof=True))
+        self.feeders.append(fut)
+        await fut
+
+
+class MixedHttp(Server):
+    def __init__(self, ex, feeders):
+        Server.__init__(self, ex)
+        self.feeders = feeders
+
+    async def respond(self, conn):
+        st = self.ex['stage']
+        data = self.ex['header'] + self.ex['body']
+        if st == 'reset-in-header':
+            data = self.ex['header'][:max(1, len(self.ex['header']) // 2)]
+            await conn.send_segments([data], eof=True)
+        elif st == 'reset-in-body':
+            hdr = self.ex['header']
+            if self.ex['framing'] != 'length' or len(self.ex['body']) < 2:
+                # make sure the body is really cut short: announce more than is sent
+                lines = [l for l in wc.header_lines(hdr)[:-1] if not l.lower().startswith((b'content-length', b'transfer-encoding'))]
+                hdr = b''.join(lines) + b'Content-Length: %d\r\n\r\n' % (len(self.ex['body']) + 10)
+                await conn.send_segments([hdr + self.ex['body']], eof=True)
+            else:
+                await conn.send_segments([hdr + self.ex['body'][:len(self.ex['body']) // 2]], eof=True)
+        elif st == 'bad-status-line':
+            await conn.send_segments([b'ICY 200 OK\r\n\r\n'], eof=True)
+        else:
+            await conn.send_segments(fakenet.segment(data, self.ex['cuts']), eof=(self.ex['framing'] == 'close'))
+
+    def on_write(self, conn, data):
+        self.buf += data
+        if not self.done and b'\r\n\r\n' in self.buf:
+            self.done = True
+            self.feeders.append(asyncio.ensure_future(self.respond(conn)))
+
+
+def run_mixed(case, seed):
+    from wpull.warc.recorder import WARCRecorder, WARCRecorderParams
+    from wpull.protocol.http.client import Client as HClient
+    from wpull.protocol.http.request import Request as HRequest
+    from wpull.protocol.ftp.client import Client as FClient
+    from wpull.protocol.ftp.request import Request as FRequest
+    from wpull.network.pool import ConnectionPool
+    base = os.environ.get('TMPDIR') or tempfile.gettempdir()
+    directory = tempfile.mkdtemp(prefix='wpull-verif-warcm-', dir=base)
+    counter = [0]
+    real_uuid4 = uuid_mod.uuid4
+
+    def fake_uuid4():
+        counter[0] += 1
+        return uuid_mod.UUID(int=(int(hashlib.sha1(('%s/%d' % (seed, counter[0])).encode()).hexdigest(), 16) >> 32), version=4)
+    outcomes = []
+    raised = []
+
+    async def go():
+        feeders = []
+
+        class Live:
+            def done(self):
+                return all(f.done() for f in feeders)
+        net = fakenet.FakeNet()
+        for f in case['fetches']:
+            if f['kind'] == 'ftp':
+                if f['stage'] != 'refused':
+                    net.listen('10.0.0.1', f['port'], (lambda f=f: MixedFtp(f, feeders)))
+                if f['stage'] != 'data-refused':
+                    net.listen('10.0.0.1', f['dport'], (lambda f=f: MixedData(f, feeders)))
+            elif f['stage'] != 'refused':
+                net.listen('10.0.0.1', f['port'], (lambda f=f: MixedHttp(f, feeders)))
+        with net:
+            pool = ConnectionPool(resolver=fakenet.FakeResolver())
+            hclient = HClient(connection_pool=pool)
+            fclient = FClient(connection_pool=pool)
+            rec = WARCRecorder(os.path.join(directory, wc.PREFIX), params=WARCRecorderParams(
+                compress=case['compress'], temp_dir=directory, log=False, digests=case['digests'], cdx=case['cdx']))
+            rec.listen_to_http_client(hclient)
+            rec.listen_to_ftp_client(fclient)
+
+            async def step(coro):
+                t = asyncio.ensure_future(compat._ensure(coro))
+                if not await fakenet.settle(t, [Live()], extra=300):
+                    t.cancel()
+                    try:
+                        await t
+                    except BaseException:
+                        pass
+                    raise TimeoutError('stalled')
+                return t.result()
+            for f in case['fetches']:
+                outcome = 'ok'
+                try:
+                    if f['kind'] == 'ftp':
+                        f['url'] = 'ftp://h:%d/dir/%s' % (f['port'], '' if f['listing'] else 'f%d.bin' % f['port'])
+                        session = fclient.session()
+                        with session:
+                            if f['listing']:
+                                await step(session.start_listing(FRequest(f['url'])))
+                                await step(session.download_listing(io.BytesIO()))
+                            else:
+                                await step(session.start(FRequest(f['url'])))
+                                await step(session.download(io.BytesIO()))
+                    else:
+                        session = hclient.session()
+                        with session:
+                            await step(session.start(HRequest(f['url'])))
+                            await step(session.download(io.BytesIO()))
+                except Exception as e:
+                    outcome = 'exc ' + type(e).__name__
+                    import traceback
+                    tb = traceback.extract_tb(e.__traceback__)
+                    if any('/wpull/warc/' in fr.filename for fr in tb):
+                        raised.append((type(e).__name__, str(e)[:200], [fr.name for fr in tb if '/wpull/' in fr.filename][-1]))
+                outcomes.append(outcome)
+            rec.close()
+    uuid_mod.uuid4 = fake_uuid4
+    try:
+        compat.run(go())
+        after = {}
+        for n in sorted(os.listdir(directory)):
+            with open(os.path.join(directory, n), 'rb') as fh:
+                after[n] = fh.read()
+    finally:
+        uuid_mod.uuid4 = real_uuid4
+        shutil.rmtree(directory, ignore_errors=True)
+    cfg = {'compress': case['compress'], 'digests': case['digests'], 'cdx': case['cdx'], 'appending': False, 'max_size': None,
+           'log': False, 'revisit': False, 'software': None, 'extra': []}
+    return {'cfg': cfg, 'before': {}, 'after': after, 'created': [], 'meta': {}}, outcomes, raised
+
+
+def check_mixed(ctx, case, pid):
+    obs, outcomes, raised = run_mixed(case, 'mixed/%r' % (case['fetches'][0].get('port'),))
+    by_file, problems = wc.parse_life(obs)
+    recs = [r for (start, rs) in by_file.values() for r in rs]
+    fails = []
+    for typ, text, where in raised:
+        fails.append(('recorder-raised', where, '%s(%s) came out of the WARC recorder while it listened to the real clients' % (typ, text)))
+    exp = {}
+    for f, outcome in zip(case['fetches'], outcomes):
+        url = f['url'].encode()
+        mine = [r for r in recs if r.get(b'WARC-Target-URI') == url]
+        ok = outcome == 'ok'
+        if f['kind'] == 'ftp':
+            ctrl = [r for r in mine if r.type == b'metadata']
+            data = [r for r in mine if r.type == b'resource']
+            if len(ctrl) > 1 or (ok and len(ctrl) != 1):
+                fails.append(('record-missing' if not ctrl else 'record-written-twice', 'end_control',
+                              'FTP fetch %s (%s, %s): %d control-conversation records' % (f['url'], f['stage'], outcome, len(ctrl))))
+            want = LISTING if f['listing'] else f['data']
+            if ok and (len(data) != 1 or data[0].block != want):
+                fails.append(('record-missing', 'end_transfer', 'completed FTP fetch %s: %d resource records, block %s'
+                              % (f['url'], len(data), 'differs' if data else 'absent')))
+            if not ok and len(data) > 1:
+                fails.append(('record-written-twice', 'end_transfer', 'failed FTP fetch %s (%s): %d resource records' % (f['url'], f['stage'], len(data))))
+        else:
+            reqs = [r for r in mine if r.type == b'request']
+            resp = [r for r in mine if r.type == b'response']
+            if len(reqs) > 1 or len(resp) > 1 or (ok and (len(reqs) != 1 or len(resp) != 1)):
+                fails.append(('record-missing' if ok else 'record-written-twice', 'end_response',
+                              'HTTP fetch %s (%s, %s): %d request and %d response records' % (f['url'], f['stage'], outcome, len(reqs), len(resp))))
+            if ok and f['stage'] == 'ok':
+                for r in resp:
+                    uid = (r.id or b'').decode('latin-1')[10:-1]
+                    obs['meta'][uid] = {'kind': 'response', 'full': f['header'] + f['body'], 'hdrlen': len(f['header']),
+                                        'status': f['status'], 'mime': f['mime'], 'revisit': None, 'linesep': f.get('linesep', False)}
+                    exp['<urn:uuid:%s>' % uid] = (f['status'], f['mime'], f.get('linesep', False))
+    for r in recs:
+        uid = (r.id or b'').decode('latin-1')[10:-1]
+        if r.type in (b'request', b'response') and uid not in obs['meta']:
+            # no independent copy of the wire bytes at hand (request / cut-short response): the header block ends at the
+            # first empty line of the block itself
+            m = re.search(rb'\n\r?\n', r.block)
+            obs['meta'][uid] = {'kind': r.type.decode(), 'full': r.block, 'hdrlen': m.end() if m else len(r.block),
+                                'status': None, 'mime': None, 'revisit': None}
+    if pid == 'C05':
+        more, _ = wc.oracle_c05(obs, by_file, problems, {})
+        fails += more
+    else:
+        fails += wc.oracle_c07(obs, by_file, obs['after'], exp)
+    tags = ['mixed:%s:%s:%s' % (f['kind'], f['stage'], o.split(' ')[-1]) for f, o in zip(case['fetches'], outcomes)]
+    ctx.case(('mixed', repr(case)), nontrivial=any(o == 'ok' for o in outcomes), tags=sorted(set(tags)))
+    for kind, where, detail in fails:
+        ctx.fail(kind, where, {'stream': 'mixed', 'mixed': case}, detail + ' [real FTP/HTTP clients]')
+
+
+def stream_mixed(ctx, n, pid):
+    rng = ctx.subrng('mixed')
+    cases = [gen_mixed(rng) for _ in range(n)]
+    for c in cases:
+        check_mixed(ctx, c, pid)
+    if cases:
+        ctx.sample({'stream': 'mixed', 'fetches': [(f['kind'], f['stage']) for f in cases[0]['fetches']]})
